@@ -302,6 +302,25 @@ func c07NoGlobalWrites(c *Ctx) {
 							hits = append(hits, shortFn(topFn(fn))+"/mapstore:"+g.Pkg.Pkg.Name()+"."+g.Name()+"|"+c.ipos(x)+"|gqlgen's package-level map "+g.Name())
 						}
 					case ssa.CallInstruction:
+						// the address of a package-level struct/map/slice handed to a call (a decode target): the callee writes it
+						for _, a := range x.Common().Args {
+							a = an.Strip(a)
+							if mi, ok := a.(*ssa.MakeInterface); ok {
+								a = an.Strip(mi.X)
+							}
+							g, isG := a.(*ssa.Global)
+							if !isG || g.Pkg == nil || !pipeline.InModule(g.Pkg.Pkg.Path()) {
+								continue
+							}
+							el := g.Type().Underlying().(*types.Pointer).Elem()
+							if n, ok := el.(*types.Named); ok && n.Obj().Pkg() != nil && (n.Obj().Pkg().Path() == "sync" || n.Obj().Pkg().Path() == "sync/atomic") {
+								continue
+							}
+							switch el.Underlying().(type) {
+							case *types.Struct, *types.Map, *types.Slice, *types.Array:
+								hits = append(hits, shortFn(topFn(fn))+"/addr:"+g.Pkg.Pkg.Name()+"."+g.Name()+"|"+c.ipos(x)+"|(through the address handed to a call) gqlgen's package-level "+g.Name())
+							}
+						}
 						if callee := x.Common().StaticCallee(); callee != nil {
 							if g, bad := mut[callee]; bad {
 								hits = append(hits, shortFn(topFn(fn))+"→"+shortFn(callee)+"|"+c.ipos(x)+"|gqlparser's package-level "+g)
